@@ -57,6 +57,34 @@ def viol18Step (env : Env) (pre post : Sim) : List String :=
           else [s!"C18/overtaken-unusable-plug| vehicle {q'.id} queues at station {s} for plug {c} which it cannot use and is overtaken by vehicle {q.id}"]
         else []
 
+/-- C18, processing order (theorem `C18.processing_order` as a monitor on the observed order in which
+    the update phase stepped the vehicles): of two vehicles waiting in the same queue, the one that
+    joined earlier (enqueue time, then id) is stepped first; and every queueing vehicle is stepped
+    after every vehicle that is not queueing (a plug given back in this step is seen by the queue) -/
+def viol18Order (pre : Sim) (order : List VehicleId) : List String :=
+  let idx (v : VehicleId) : Option Nat := order.findIdx? (· == v)
+  let queued : List (Vehicle × StationId × ChargerId × Int) := pre.vehicles.filterMap fun v =>
+    match v.act with
+    | .chargeQueueing s c t => some (v, s, c, t)
+    | _ => none
+  (queued.flatMap fun (q, s, c, t) =>
+    queued.flatMap fun (q', s', c', t') =>
+      if s' == s && c' == c && (t' < t || (t' == t && q'.id < q.id)) then
+        match idx q.id, idx q'.id with
+        | some i, some i' =>
+          if i < i' then [s!"C18/processing-order| vehicle {q.id} (queued at {t}) is updated before vehicle {q'.id} (queued at {t'}) of the same queue at station {s}, plug {c}: a plug that frees up goes to the later arrival"]
+          else []
+        | _, _ => []
+      else []) ++
+  (queued.flatMap fun (q, _, _, _) =>
+    pre.vehicles.flatMap fun o =>
+      match o.act with
+      | .chargeQueueing _ _ _ => []
+      | _ =>
+        match idx q.id, idx o.id with
+        | some i, some j => if i < j then [s!"C18/processing-order| queueing vehicle {q.id} is updated before vehicle {o.id}, which is not queueing: a plug {o.id} gives back in this step is not seen by the queue"] else []
+        | _, _ => [])
+
 /-- observed queue membership: vehicle, station, plug, the clock of the first state in which the
     vehicle was seen waiting there (kept by the driver along a history) -/
 abbrev Joined := List (VehicleId × StationId × ChargerId × Int)
